@@ -477,7 +477,6 @@ def correspond(model_ok, res):
         "  && Bool.eqb (layout_freeb t && expressibleb t) ex\n"
         "  && Bool.eqb (f4_patternb t) f4 && Bool.eqb (f15_patternb t) f15\n"
         "  && match rt with None => true | Some b => Bool.eqb (roundtripb t) b end.")
-    canary = cases[5].replace("(Some ", "(Some (set_head ", 1) if False else None
     # canary: corrupt the expected output of one case that has an output (flip a class)
     ci = next(i for i, c in enumerate(cases) if ", (Some (Op KAnd " in c)
     canary = cases[ci].replace(", (Some (Op KAnd ", ", (Some (Op KOr ", 1)
@@ -501,7 +500,7 @@ SPEC = {
     "model_targets": ["model/AutoHeadTail.vo", "model/TreeEq.vo"],
     "module": "C13",
     "theorems": ["C13_fails_exactly", "C13_equal_to_input", "C13_only_fills_empty", "C13_idempotent",
-                 "C13_roundtrip_refuted", "C13_roundtrip_guarded_refuted", "C13_roundtrip_partial"],
+                 "C13_roundtrip_refuted", "C13_roundtrip_noF4_refuted"],
     "correspond": correspond,
     "statement": "auto_head_tail returns a tree equal to its input in which only empty heads/tails became one "
                  "blank, is idempotent and leaves its argument untouched; for layout-free trees the grammar can "
